@@ -20,7 +20,7 @@ PROPS = {
         ],
     },
     "C04": {
-        "level_text": 'Model checking of the real StripedSequence buffer: explicit-state BFS to fixpoint over histories of stripe_into (every backend) / configure_wrap / configure / clone with canonical-state de-duplication, every transition checked against a linear-sequence model; plus a complete product enumeration of single stripes for every length 0..=2200 and every striping configuration.',
+        "level_text": 'Model checking of the real StripedSequence buffer: explicit-state BFS to fixpoint over histories of stripe_into (every backend) / configure_wrap / configure / clone with canonical-state de-duplication, every transition checked against a linear-sequence model; plus a complete product enumeration of single stripes for every length 0..=2200 and every striping configuration. The library\'s own linear counts (EncodedSequence and slice count_symbol(s)) are held against the same model (digit patterns contain aligned runs of 256 and more identical symbols).',
         "level_note": "Trusted: linear-sequence model; canonical key soundness argument (DESIGN C04); data-obliviousness of striping. Memory-safety side of striping is C06's business.",
         "technique": 'explicit-state BFS by re-execution over buffer histories + product enumeration of lengths/backends',
         "level": "model_checking",
@@ -67,7 +67,7 @@ PROPS = {
 
 PROPS.update({
     "C02": {
-        "level_text": "Bounded-exhaustive exploration of scanner configurations, each driven through the real Scanner state machine (next() to exhaustion plus two more calls): ALL 3906 DNA strings of length <= 5 x all matrices of a tie/near-tie row menu (M<=2, part of M=3) x thresholds (every attainable score, midpoints, below/above the extremes) x block sizes x 3 dispatcher arms; every length 0..=170 (and around 8192) x all block sizes 1..8,256 so that every position of a block boundary relative to sequence rows and look-ahead rows occurs. Oracle: reference hit set from exact f64 scores.",
+        "level_text": "Bounded-exhaustive exploration of scanner configurations, each driven through the real Scanner state machine (next() to exhaustion plus two more calls): ALL 3906 DNA strings of length <= 5 x all matrices of a tie/near-tie row menu (M<=2, part of M=3) x thresholds (every attainable score, midpoints, below/above the extremes) x block sizes x 3 dispatcher arms; every length 0..=170 (and around 8192) x all block sizes 1..8,256 so that every position of a block boundary relative to sequence rows and look-ahead rows occurs. Oracle: reference hit set from exact f64 scores. Plus histories on one scanner: threshold changed in mid-scan (rethreshold) and block size changed in mid-scan (reblock: ordered pairs of {1,2,3,5,256}, after k = 0..6 hits), sequences configured for other widths first, exact-capacity clones and hand-built sequences.",
         "level_note": "Trusted: reference scores (f64) and the summation bound used to leave positions within rounding of the threshold undecided (never arises for the integer/dyadic menus). Finite thresholds only.",
         "technique": "bounded-exhaustive enumeration of scanner configurations, each run to exhaustion against a reference hit set",
         "level": "exploration",
@@ -222,7 +222,7 @@ PROPS.update({
         ],
     },
     "C12": {
-        "level_text": 'Bounded-exhaustive exploration: same matrix/background menu as C11; queries min-1, every distinct attainable score (at most 600 evenly ranked, 2400 thorough), each +1e-4, midpoints, max+1; EVERY refinement step of approximate_pvalue with g >= 1e-9 and the final pvalue() are compared with the brute-force tail using exactly the statement\'s margins (M+1)g / (M+2)g; panics (incl. assert!(converged)) and >40 refinement steps are violations. Plus `reuse`: ALL query histories of length <= 3 (4 thorough) over 11 p-value / score queries (partial and full refinements) on ONE TfmPvalue object, the last answer compared with that of a fresh object.',
+        "level_text": 'Bounded-exhaustive exploration: same matrix/background menu as C11; queries min-1, every distinct attainable score (at most 600 evenly ranked, 2400 thorough), each +1e-4, midpoints, max+1; EVERY refinement step of approximate_pvalue with g >= 1e-9 and the final pvalue() are compared with the brute-force tail using exactly the statement\'s margins (M+1)g / (M+2)g; panics (incl. assert!(converged)) and >40 refinement steps are violations. Plus `reuse`: ALL query histories of length <= 3 (4 thorough) over 11 p-value / score queries (partial and full refinements) on ONE TfmPvalue object, the last answer compared with that of a fresh object. Queries include attainable scores shifted by +0.15 and -0.0151 (off every coarse grid).',
         "level_note": 'Trusted: brute-force oracle; RELATIVE 1e-6 allowance on probabilities (so that tails far below 1e-6 - skewed background, p below machine epsilon - are decided too); for the final value only, the score margin has the floor 64 ulp(|s| + sum of row ranges). The statement bounds pmin only from below and pmax only from above, so single-key off-by-one mutations of the integer window are inside its slack (measured).',
         "technique": 'bounded-exhaustive enumeration of matrices x backgrounds x scores x every refinement step against a brute-force exact distribution',
         "level": "exploration", "package": "vx-pval", "profiles": ["rel", "chk"],
